@@ -57,6 +57,9 @@ func (r *Recorder) BuildReport(now time.Time, maxSize int) *rtcp.CCFeedbackRepor
 	// Every report block is padded to a multiple of 32 bits: an odd number of metric blocks takes as much
 	// space as the next even number, so only an even number is guaranteed to fit.
 	maxReportBlocksPerStream -= maxReportBlocksPerStream % 2
+	// A report block cannot carry more than 16384 metric blocks (RFC 8888 section 3.1); rtcp refuses to
+	// marshal a larger one.
+	maxReportBlocksPerStream = min(maxReportBlocksPerStream, maxReportsPerReportBlock)
 
 	for _, log := range r.streams {
 		block := log.metricsAfter(now, int64(maxReportBlocksPerStream))
